@@ -5,9 +5,11 @@ From AGH Require Import Base.Run Base.Bytes Model.HashPrefix.
 Local Open Scope Z_scope.
 
 Inductive cop :=
-  (* host, scripted upstream failure; observed: blocked, error, question sent,
-     cache entries (prefix, remaining-life class, hashes) *)
-  | CCheck (host : bytes) (fail : bool) (obs_blocked obs_err : bool) (obs_q : option bytes)
+  (* host, scripted upstream failure, the cache.Set calls the check made (key,
+     entries the LRU evicted for it, item kept?); observed: blocked, error,
+     question sent, cache entries (prefix, remaining-life class, hashes) *)
+  | CCheck (host : bytes) (fail : bool) (sets : list (bytes * list bytes * bool))
+           (obs_blocked obs_err : bool) (obs_q : option bytes)
            (obs_cache : list (bytes * Z * list bytes))
   | CAdvance (secs : Z)
   | CEvict (ps : list bytes).
@@ -48,20 +50,23 @@ Definition cache_agrees (now : Z) (c : cache) (obs : list (bytes * Z * list byte
 
 Definition to_op db (o : cop) : op :=
   match o with
-  | CCheck host fail _ _ _ _ => OCheck host (raw_service db fail)
+  | CCheck host fail sets _ _ _ _ =>
+      OCheck host (raw_service db fail) (map (fun e => fst (fst e)) sets)
+             (map (fun e => (snd (fst e), snd e)) sets)
   | CAdvance s => OAdvance (s * ns_sec)
   | CEvict ps => OEvict ps
   end.
 
 Definition step_ok (sha_tbl : list (bytes * bytes)) (ps_tbl : list (bytes * (bytes * bool))) (o : cop) (res : (Z * cache) * option check_out) : bool :=
   match o, res with
-  | CCheck host _ b e q oc, ((now, c), Some out) =>
+  | CCheck host _ _ b e q oc, ((now, c), Some out) =>
+      Nat.eqb (o_sets_left out) 0 &&
       forallb (fun n => match lookup sha_tbl n with Some _ => true | None => false end)
               (names_to_hash (ps_of ps_tbl) host) &&
       match lookup ps_tbl host with Some _ => true | None => false end &&
       Bool.eqb (o_blocked out) b && Bool.eqb (o_err out) e &&
       eqb_option eqb_bytes (o_question out) q && cache_agrees now c oc
-  | CCheck _ _ _ _ _ _, _ => false
+  | CCheck _ _ _ _ _ _ _, _ => false
   | _, (_, None) => true
   | _, _ => false
   end.
